@@ -20,7 +20,7 @@ import (
 //     result altered, is rejected (the trace specification is bound to what was recorded).
 func selftestHooks(r *Run, report func(name string, ok bool, detail string)) {
 	rng := rand.New(rand.NewSource(r.Seed))
-	for _, broken := range []string{"loadfirst", "unlockfirst"} {
+	for _, broken := range []string{"loadfirst", "unlockfirst", "commitwaitsreaders"} {
 		g := concGenFor(r, rng, 2, 1, 0)
 		g.Broken = broken
 		res := r.runTLC(tlcOpts{Module: "MC_Conc", Gen: map[string]string{"Gen_Conc.tla": g.tla()}, Timeout: 5 * time.Minute, Tag: broken})
